@@ -164,6 +164,16 @@ CLAIMED = {
             'Reserved = documented lower-case keywords, register names, H S B K (plus not, null, breakpoint). Open known finding: '
             'a string ending in a backslash followed by another quote on the line.',
             'DESIGN.md section 6, C16'),
+    'C06': ('exploration', 'generated inputs (token soup, mutants, injected rule violations, noise, edge corpus) through the real compiler and VM; TLC decides each record against the two-outcome contract (TraceCompile.tla)',
+            'Every input goes through ScriptJob.load_string (watchdog for hangs); accepted texts are executed by the real loader and VM '
+            'over SimLan with an instruction budget. TLC checks per record: finishes, no exception, accept-with-program or '
+            'reject-with-line-numbered-message-and-no-program, injected rule violation => rejected, accepted => no internal VM fault, '
+            'execute() never raises. The rule classes are the ones the property lists (break outside loop, assign to / redefine macro, '
+            'undefined names, nested routine, missing end, unbalanced { [ (, malformed/impossible time pattern).',
+            'Level exploration: for token soup, mutants and noise the specification contributes only the outcome contract; breadth '
+            'comes from generation. Internal VM faults are recognised by message; type errors caused by a script\'s own values and '
+            'the use of a value-less call result are not internal faults.',
+            'DESIGN.md section 6, C06'),
 }
 
 REASONS_PENDING = 'check not built yet in this round (planned in DESIGN.md section 6); no claim is made'
